@@ -6,6 +6,8 @@
   layouts of the optimized form, the accepted arities) — the Lean mirror is written against exactly this text;
 * `TimestampType.to_micheline_value`: the range guard of the readable branch (none on the pinned tree) with its bounds;
 * `format_timestamp`: is the year zero-padded (`%Y` of glibc is not)?
+* `optimize_timestamp` / `TimestampType.from_micheline_value`: the string handler is
+  `int(strict_rfc3339.rfc3339_to_timestamp(s))` with the `int(s)` fallback (mirrored by `Civil.parseTimestamp` + `pyInt`);
 * the handler tables `parse_micheline_value(val_expr, {...})` / `parse_micheline_literal(val_expr, {...})` of every
   class (which (prim, arity) pairs / literal kinds `from_micheline_value` accepts);
 * `BLS12_381_FrType.modulus`, the bit width checked by `MutezType.from_value`.
@@ -182,6 +184,20 @@ def gen(status):
     status['format_timestamp shape'] = (padded is not None, f'year zero-padded: {padded}' if padded is not None else 'unrecognised: ' + ' | '.join(ft)[:300])
     out.append('/-- is the year of `format_timestamp` zero-padded to four digits (glibc `%Y` is not)? -/')
     out.append('def yearPadded : Option Bool := ' + ('none' if padded is None else f'some {str(padded).lower()}'))
+
+    # --- optimize_timestamp (the 'string' handler of TimestampType.from_micheline_value) and the string handler itself
+    ot_fn = find_func(tree('forge.py'), 'optimize_timestamp')
+    ot = _body(ot_fn) if ot_fn is not None else []
+    tfm_fn = find_func(find_class(dom, 'TimestampType'), 'from_micheline_value')
+    tfm = _body(tfm_fn) if tfm_fn is not None else []
+    ot_ok = ot == ['assert isinstance(value, str)',
+                   'with suppress(strict_rfc3339.InvalidRFC3339Error):\n    return int(strict_rfc3339.rfc3339_to_timestamp(value))',
+                   'return int(value)'] \
+        and tfm == ["value = parse_micheline_literal(val_expr, {'int': int, 'string': optimize_timestamp})", 'return cls.from_value(value)']
+    status['optimize_timestamp shape'] = (ot_ok, 'int(strict_rfc3339.rfc3339_to_timestamp(s)), else int(s)' if ot_ok
+                                          else 'unrecognised: ' + ' | '.join(ot + tfm)[:300])
+    out.append('/-- a timestamp string is read by `int(strict_rfc3339.rfc3339_to_timestamp(s))`, falling back to `int(s)` -/')
+    out.append(f'def tsParseRecognised : Bool := {str(ot_ok).lower()}')
 
     # --- constants
     fr = find_class(tree('types/bls.py'), 'BLS12_381_FrType')
